@@ -31,20 +31,33 @@ func init() {
 }
 
 func specialCaseFormat(err error, p errbase.Printer, isLeaf bool) (handled bool, next error) {
-	if isLeaf && markers.IsAny(err,
-		context.DeadlineExceeded,
-		context.Canceled,
-		os.ErrInvalid,
-		os.ErrPermission,
-		os.ErrExist,
-		os.ErrNotExist,
-		os.ErrClosed,
-		os.ErrNoDeadline) {
-		p.Print(redact.Safe(err.Error()))
-		return true, nil
+	if isLeaf {
+		for _, sentinel := range []error{
+			context.DeadlineExceeded,
+			context.Canceled,
+			os.ErrInvalid,
+			os.ErrPermission,
+			os.ErrExist,
+			os.ErrNotExist,
+			os.ErrClosed,
+			os.ErrNoDeadline,
+		} {
+			// The text is known to be safe only if it is the sentinel's
+			// own: an error type can declare itself equivalent to a
+			// sentinel via an Is method and yet carry arbitrary text.
+			if markers.Is(err, sentinel) && err.Error() == sentinel.Error() {
+				p.Print(redact.Safe(err.Error()))
+				return true, nil
+			}
+		}
 	}
 
 	switch v := err.(type) {
+	case *errbase.OpaqueErrno:
+		// An errno received from another platform; same text as the
+		// errno case below.
+		p.Print(redact.Safe(v.Error()))
+		return true, nil
 	// The following two types are safe too.
 	case runtime.Error:
 		p.Print(redact.Safe(v.Error()))
